@@ -339,6 +339,50 @@ let conc_oracle (case_toks : string list) (obs : string) : string =
      | _ -> "fail observation-shape")
   | _ -> "skip shape"
 
+(* ---- C03: the output of concurrently logging threads is a merge of the threads' sequences ---- *)
+let lines_of (b : bytes) : bytes list =
+  let rec go cur acc = function
+    | [] -> List.rev (if cur = [] then acc else List.rev cur :: acc)
+    | c :: r -> if int_of_n c = 10 then go [] (List.rev (c :: cur) :: acc) r else go (c :: cur) acc r in
+  go [] [] b
+
+let mt_oracle (case_toks : string list) (obs : string) : string =
+  match case_toks with
+  | [out; mode; rot; naming; threads; lines; len] ->
+    let threads = int_of_string threads and lines = int_of_string lines and len = int_of_string len in
+    let stream =
+      if out = "file" then
+        let cfg = Fmt_driver.lh_config mode rot naming in
+        stream_of cfg (parse_snapshot obs)
+      else bytes_of_hex (String.sub obs 2 (String.length obs - 2)) in
+    (* what each thread logged, in its order *)
+    let expected = List.init threads (fun t -> List.init lines (fun k ->
+        let pad = String.make (max 0 (len + (k * 7 + t * 3) mod 11 - 10)) 'x' in
+        bytes_of_string (Printf.sprintf "T%d-%d-%s\n" t k pad))) in
+    if merge_check expected (lines_of stream) then "pass" else "fail output-is-not-a-merge-of-the-threads-lines"
+  | _ -> "skip shape"
+
+(* ---- C04: at a checkpoint (flush in a synchronous mode, shutdown, last handle dropped) everything accepted is there ---- *)
+let lh_oracle (case_toks : string list) (obs : string list) : string =
+  match case_toks with
+  | out :: mode :: rot :: naming :: ";" :: ops ->
+    let ops = List.filter (fun s -> s <> "") ops in
+    if List.length ops <> List.length obs then "fail observation-shape" else
+    let cfg = Fmt_driver.lh_config mode rot naming in
+    let logged = ref [] and verdict = ref "" and checks = ref 0 in
+    List.iter2 (fun op ob ->
+        match split_on ':' op with
+        | ["L"; h] -> logged := !logged @ bytes_of_hex h @ [n_of_int 10]
+        | ["SN"] ->
+          incr checks;
+          let got = if out = "file" then stream_of cfg (parse_snapshot ob)
+            else bytes_of_hex (String.sub ob 2 (String.length ob - 2)) in
+          if got <> !logged && !verdict = "" then
+            verdict := Printf.sprintf "accepted-records-missing-after-flush-shutdown-or-drop got=%s expected=%s" (hex_of_bytes got) (hex_of_bytes !logged)
+        | _ -> ()) ops obs;
+    if !verdict <> "" then "fail " ^ !verdict else if !checks = 0 then "skip no-checkpoint" else "pass"
+  | _ -> "skip shape"
+
 let run_line (prop : string) (line : string) : string =
   let marker = " @@ " in
   let rec find i = if i + 4 > String.length line then -1 else if String.sub line i 4 = marker then i else find (i + 1) in
@@ -348,5 +392,7 @@ let run_line (prop : string) (line : string) : string =
   match split_on ' ' case with
   | _ :: "flw" :: rest -> flw_oracle prop rest (List.filter (fun s -> s <> "") (split_on ' ' obs))
   | _ :: "conc" :: rest -> conc_oracle rest obs
+  | _ :: "mt" :: rest -> mt_oracle rest obs
+  | _ :: "lh" :: rest -> lh_oracle rest (List.filter (fun s -> s <> "") (split_on ' ' obs))
   | _ :: "tryfrom" :: _ -> if obs = "p0 rt1 b1 w1" then "pass" else "fail path-derived-spec-does-not-denote-the-path " ^ obs
   | _ -> "skip kind"
